@@ -478,7 +478,7 @@ class LagSem(vecint.VInterp):
         return vecint.VInterp.ev_Call(self, n)
 
 
-def check_laguerre_step_semantic(F, run, roots):
+def check_laguerre_step_semantic(F, run, roots, only_exit=False):
     """R14.6 without names: the loop (wherever it lives) that calls `evaluate_derivative`; its iterate is the local it updates and evaluates the
     polynomial at; one iteration from z (not yet converged) must give z − n/(G ± S) with G = p'/p, S² = (n−1)(n·H − G²), H = G² − p''/p, the
     sign being the one whose denominator the path condition says is the larger."""
@@ -549,7 +549,8 @@ def check_laguerre_step_semantic(F, run, roots):
     H = G ** 2 - ddP / P
     E_want = sp.expand((nn - 1) * (nn * H - G ** 2))
     n_paths = 0
-    for choice in (True, False):
+    residual_tests = []
+    for choice in ((True,) if only_exit else (True, False)):
         it = LagSem(F, b)
         it.shared.update({"P": P, "dP": dP, "ddP": ddP})
         asked = []
@@ -561,6 +562,8 @@ def check_laguerre_step_semantic(F, run, roots):
                 asked.append(c)
                 return choice
             if isinstance(c, sp.Basic) and c.has(P) and not c.has(SQ):
+                if not (c.has(dP) or c.has(ddP)):
+                    residual_tests.append(c)
                 return False                    # the residual test: not converged yet
             return PI.generic_decide(c)
         it.if_hook = hook
@@ -596,6 +599,29 @@ def check_laguerre_step_semantic(F, run, roots):
             return
         except (sym.Unsupported, vecint.IndexPanic) as e:
             run.broken("R14.6", dp, "laguerre-step", where, "cannot interpret one Laguerre iteration: %s" % e)
+            return
+        if only_exit:
+            # R14.10 — the test that declares the iterate a root looks at p(z) only through comparisons; evaluated at sample values of the complex number
+            # p(z) it must hold at 0 and fail whenever either part of p(z) is large: a test on one component accepts points that are nowhere near a root
+            tol_s = [x for c_ in residual_tests for x in c_.free_symbols if x != P]
+            if not run.check(len(residual_tests) >= 1, "R14.10", dp, "residual-test", where, "no test of p(z) against the tolerance was met in one Laguerre iteration"):
+                return
+            c_ = residual_tests[0]
+            t_ = sp.Rational(1, 10)
+            subs_t = {x: t_ for x in tol_s}
+            samples = [("p(z)=0", sp.Integer(0), True), ("p(z)=1", sp.Integer(1), False), ("p(z)=i", sp.I, False), ("p(z)=-1", sp.Integer(-1), False),
+                       ("p(z)=-i", -sp.I, False), ("p(z)=t/2+i", t_ / 2 + sp.I, False), ("p(z)=1+i*t/2", 1 + sp.I * t_ / 2, False)]
+            bad = []
+            for label, val, want in samples:
+                try:
+                    got = bool(sp.simplify(c_.subs(subs_t).subs(P, val)))
+                except Exception:
+                    got = None
+                if got is not want:
+                    bad.append("%s -> %s" % (label, got))
+            run.check(not bad, "R14.10", dp, "residual-test-bounds-the-modulus", where,
+                      "the test that accepts the iterate as a root (`%s`) does not bound |p(z)|: with tolerance 1/10 it gives %s — a value of p(z) with one large part is accepted, "
+                      "the polynomial is deflated by a point that is not a root" % (str(c_)[:100], "; ".join(bad)), sample="exit test bounds |p(z)|")
             return
         znew = it.env.get(iterate[0])
         if not isinstance(znew, sp.Basic) or len(asked) != 1:
@@ -829,6 +855,7 @@ def run(F, run, tier):
     check_general_branch(F, run, roots, tier)
     check_guards(F, run, roots)
     check_laguerre_step(F, run, roots)
+    check_laguerre_step_semantic(F, run, roots, only_exit=True)
     check_first_step_defined(F, run, roots)
     check_complex_domain(F, run, roots)
     check_make_complex(F, run)
